@@ -541,7 +541,18 @@ theorem lookupKey_wf {kvs : List (String × Py)} (hw : wfK kvs = true) {a x} (hl
     simp only [hfind, Option.map_some, Option.some.injEq] at hl
     exact hl ▸ wfK_mem hw kv (List.mem_of_find?_eq_some hfind)
 
-theorem fields_of_AcceptsF {o ms ts} (h : AcceptsF o ms ts) (hacc : accF ts = true) :
+/-- no field-level `fall_back_on_default` -/
+def nfF : List (FieldInfo × Ty) → Bool
+  | [] => true
+  | (f, _) :: fs => !f.fbod && nfF fs
+
+theorem nfF_of_accF : ∀ {fs : List (FieldInfo × Ty)}, accF fs = true → nfF fs = true
+  | [], _ => rfl
+  | (f, t) :: fs, h => by
+    rw [accF] at h; simp only [Bool.and_eq_true, Bool.not_eq_true'] at h
+    simp [nfF, h.1.1, nfF_of_accF h.2]
+
+theorem fields_of_AcceptsF {o ms ts} (h : AcceptsF o ms ts) (hacc : nfF ts = true) :
     (∀ kvs, wfK kvs = true → fieldsOkM ms kvs = conformsF o.additionalProperties false ts kvs)
     ∧ aliasesM ms = aliasesOf ts ∧ NoFbod ms := by
   induction h with
@@ -550,7 +561,7 @@ theorem fields_of_AcceptsF {o ms ts} (h : AcceptsF o ms ts) (hacc : accF ts = tr
     obtain ⟨f, m⟩ := a; obtain ⟨f', t⟩ := b
     obtain ⟨hf, hm⟩ := hab
     simp only at hf hm; subst hf
-    rw [accF] at hacc
+    rw [nfF] at hacc
     simp only [Bool.and_eq_true, Bool.not_eq_true'] at hacc
     obtain ⟨ih1, ih2, ih3⟩ := ih hacc.2
     refine ⟨fun kvs hw => ?_, by rw [aliasesM_cons, aliasesOf, ih2], ?_⟩
@@ -559,10 +570,10 @@ theorem fields_of_AcceptsF {o ms ts} (h : AcceptsF o ms ts) (hacc : accF ts = tr
       unfold fieldOk0 fieldOk
       cases hl : lookupKey kvs f.alias with
       | none => rfl
-      | some x => simp only [hm x (lookupKey_wf hw hl), hacc.1.1, Bool.or_false, Bool.and_false]
+      | some x => simp only [hm x (lookupKey_wf hw hl), hacc.1, Bool.or_false, Bool.and_false]
     · intro fm hfm
       rcases List.mem_cons.1 hfm with rfl | hmem
-      · exact hacc.1.1
+      · exact hacc.1
       · exact ih3 fm hmem
 
 theorem dictOk_congr {c d} {p q : List (String × Py) → Bool}
@@ -575,7 +586,7 @@ theorem withFbod_id {o : DOpts} (ho : o.fallBackOnDefault = false) (f : FieldInf
 
 /-- acceptance of whichever object method `object()` selects -/
 theorem isOk_objSel {o : DOpts} {ci c} {ms : List (FieldInfo × Meth)} {ts : List (FieldInfo × Ty)}
-    (h : AcceptsF o ms ts) (hacc : accF ts = true) (hal : (aliasesOf ts).Nodup) (d : Py) (hw : d.wf = true) :
+    (h : AcceptsF o ms ts) (hacc : nfF ts = true) (hal : (aliasesOf ts).Nodup) (d : Py) (hw : d.wf = true) :
     (run (objSel o ci c ms) d).isOk
       = dictOk c d (fun kvs => conformsF o.additionalProperties false ts kvs
                                 && noUnexpected o.additionalProperties (aliasesOf ts) kvs) := by
@@ -730,7 +741,7 @@ theorem accepts_iff_conforms (o : DOpts) (ho : OptsOk o) :
     intro cs ci fs ih hs d hw
     rw [Ty.acc, Bool.and_eq_true] at hs
     rw [compile, conforms]
-    exact isOk_objSel (ih hs.2) hs.2 (nodup_of_distinctStrs hs.1) d hw
+    exact isOk_objSel (ih hs.2) (nfF_of_accF hs.2) (nodup_of_distinctStrs hs.1) d hw
   · intro cs _; rw [compileL]; exact All2.nil
   · intro cs t ts iht ihts hs
     rw [accL, Bool.and_eq_true] at hs
